@@ -7,6 +7,7 @@ Exit codes: 0 held, 1 violation(s) (VIOLATION lines), 2 harness error.
 import argparse
 import hashlib
 import importlib
+import io
 import json
 import os
 import re
@@ -304,27 +305,136 @@ def drive(strategy, run_case, n_examples, hseed, col):
     test()
 
 
+def drive_atheris(strategy, run_case, col, hseed, max_runs=10**9):
+    """Coverage-guided campaign: libFuzzer (atheris) mutates the byte buffer
+    that Hypothesis decodes into a case (fuzz_one_input); the library was
+    imported under atheris.instrument_imports, so new branches in adcgen
+    keep an input in the corpus. Does not return: atheris ends the process,
+    the collector is written by col.finish() when the budget is used up."""
+    import atheris
+    import tempfile
+    from hypothesis import given, settings, Phase, HealthCheck
+
+    # Hypothesis 6.168: BytestringProvider.draw_integer rejection-samples the
+    # raw bits against [min, max] without adding min, so every range that
+    # does not start near 0 (e.g. the Fisher-Yates draws of st.permutations)
+    # overruns the buffer and fuzz_one_input rejects every input. Harness-side
+    # replacement (offset added):
+    from hypothesis.internal.conjecture import providers as _prov
+
+    def draw_integer(self, min_value=None, max_value=None, *, weights=None,
+                     shrink_towards=0):
+        if min_value is None and max_value is None:
+            min_value, max_value = -(2**127), 2**127 - 1
+        elif min_value is None:
+            min_value = max_value - 2**64
+        elif max_value is None:
+            max_value = min_value + 2**64
+        if min_value == max_value:
+            return min_value
+        span = max_value - min_value
+        bits = span.bit_length()
+        value = self._draw_bits(bits)
+        while value > span:
+            value = self._draw_bits(bits)
+        return min_value + value
+    _prov.BytestringProvider.draw_integer = draw_integer
+
+    seen = set()
+
+    @settings(database=None, deadline=None, phases=[Phase.generate],
+              suppress_health_check=list(HealthCheck),
+              report_multiple_bugs=False)
+    @given(strategy)
+    def test(case):
+        h = case_hash(case)
+        if h in seen:
+            return
+        seen.add(h)
+        if col.run(case, run_case) is not None:
+            col.classes["atheris_distinct_cases"] += 1
+    fuzz = test.hypothesis.fuzz_one_input
+    n = [0]
+
+    def one(data):
+        if col.out_of_time() or n[0] >= max_runs:
+            col.extra = dict(col.extra or {}, atheris_runs=n[0],
+                             atheris_distinct_cases=len(seen))
+            try:
+                # last libFuzzer status line: cov / features / corpus size
+                with open(logpath, errors="replace") as fh:
+                    stat = re.findall(r"cov: (\d+) ft: (\d+) corp: (\d+)",
+                                      fh.read())
+                if stat:
+                    col.extra["atheris_last_status"] = [
+                        "cov=%s ft=%s corpus=%s" % stat[-1]]
+            except OSError:
+                pass
+            col.finish()
+            sys.stdout.flush()
+            os._exit(0)
+        n[0] += 1
+        fuzz(data)
+    tmpdir = tempfile.mkdtemp(prefix="vf-atheris-")
+    corpus = os.path.join(tmpdir, "corpus")
+    os.mkdir(corpus)
+    # starting corpus: seeded pseudo-random buffers (an empty corpus never
+    # gets past Hypothesis' "buffer too short" rejection, which runs in
+    # uninstrumented code and gives libFuzzer no gradient) - a pure function
+    # of the seed
+    import random
+    rnd = random.Random(hseed)
+    for k in range(48):
+        with open(os.path.join(corpus, f"seed{k:02d}"), "wb") as fh:
+            fh.write(rnd.randbytes(rnd.choice([128, 256, 512, 1024, 2048])))
+    import atexit
+    import shutil
+    col.cleanup = lambda: shutil.rmtree(tmpdir, True)
+    logpath = os.path.join(tmpdir, "libfuzzer.log")
+    sys.stderr.flush()
+    os.dup2(os.open(logpath, os.O_WRONLY | os.O_CREAT | os.O_TRUNC), 2)
+    atheris.Setup([sys.argv[0], f"-seed={hseed % (2**31 - 1) + 1}",
+                   "-max_len=2048", "-len_control=0", "-verbosity=1", "-print_final_stats=0",
+                   corpus], one)
+    atheris.Fuzz()
+
+
+# shards that run a coverage-guided (atheris) stage: property -> tier -> shards
+ATHERIS_SHARDS = {"C18": {"thorough": (12, 13, 14, 15), "quick": (14, 15)}}
+
+
 # ------------------------------------------------------------------ shard
 def run_shard(args):
-    mod = importlib.import_module(f"vf.props.{args.id.lower()}")
     budget = float(args.budget)
     col = Collector(args.id, args.tier, budget)
+    col.atheris = getattr(args, "atheris", False)
+    mod = importlib.import_module(f"vf.props.{args.id.lower()}")
     col.case_timeout = getattr(mod, "CASE_TIMEOUT", {}).get(args.tier)
     t0 = time.time()
-    try:
-        extra = mod.run_shard(col, args.shard, args.nshards, args.seed,
-                              args.tier)
+    col.extra = None
+
+    def finish():
         if getattr(mod, "SHRINK", True):
-            col.shrink_all(mod.run_case)
+            try:
+                col.shrink_all(mod.run_case)
+            except Exception as exc:
+                col.harness.append(f"shrinking crashed: {exc!r}")
+        out = col.dump()
+        out["wall"] = time.time() - t0
+        out["extra"] = col.extra
+        with open(args.out, "w") as fh:
+            json.dump(out, fh, default=str)
+        if getattr(col, "cleanup", None):
+            col.cleanup()
+    col.finish = finish
+    try:
+        col.extra = mod.run_shard(col, args.shard, args.nshards, args.seed,
+                                  args.tier)
     except Exception as exc:
         col.harness.append(f"shard crashed: {type(exc).__name__}: {exc}\n"
                            + traceback.format_exc()[-2000:])
-        extra = None
-    out = col.dump()
-    out["wall"] = time.time() - t0
-    out["extra"] = extra
-    with open(args.out, "w") as fh:
-        json.dump(out, fh, default=str)
+        col.extra = None
+    finish()
     return 0
 
 
@@ -604,6 +714,20 @@ def main():
     args.id = args.id.upper()
     if args.tier not in ("quick", "thorough"):
         args.tier = "quick"
+    args.atheris = False
+    if args.shard is not None and not args.replay and \
+            args.shard in ATHERIS_SHARDS.get(args.id, {}).get(args.tier, ()) \
+            and os.environ.get("VERIF_ATHERIS", "1") != "0":
+        try:
+            import atheris
+            import contextlib
+            # the library has to be imported under the instrumentation
+            with contextlib.redirect_stderr(io.StringIO()):
+                with atheris.instrument_imports(include=["adcgen"]):
+                    import adcgen
+            args.atheris = True
+        except ImportError:
+            args.atheris = False
     import adcgen
     repo = os.environ.get("VERIF_REPO", "/repo")
     if not os.path.realpath(adcgen.__file__).startswith(
